@@ -1692,6 +1692,20 @@ def _lx_trivia(it, c, a):
     lx = _lx(a); lx.start = lx.end; return UNIT
 
 
+@model('Box::new_uninit')
+def _box_new_uninit(it, c, a):
+    cell = [Agg('struct', 'MaybeUninit', None, [UNIT, Agg('struct', 'ManuallyDrop', None, [Agg('struct', 'MaybeDangling', None, [Agg('array', '[]', None, [])])])])]
+    return Agg('struct', 'Box', None, [Agg('struct', 'Unique', None, [Agg('struct', 'NonNull', None, [RefV(cell, 0)])]), UNIT])
+
+
+@model('boxed::box_assume_init_into_vec_unsafe')
+def _box_into_vec(it, c, a):
+    # the lowering of vec![a, b, ..]: Box<MaybeUninit<[T; N]>> written through a raw pointer, then turned into a Vec
+    mu = a[0].fields[0].fields[0].fields[0].get()
+    arr = mu.fields[1].fields[0].fields[0]
+    return VecV(list(arr.fields))
+
+
 @model('logos::skip')
 def _logos_skip(it, c, a):
     return Agg('struct', 'Skip', None, [])
